@@ -17,7 +17,6 @@ type (
 	WaitGroup = vrt.WaitGroup
 	Cond      = vrt.Cond
 	Locker    = sync.Locker
-	Pool      = sync.Pool
 )
 
 func NewCond(l Locker) *Cond { return vrt.NewCond(l) }
@@ -79,4 +78,35 @@ func (m *Map) Range(f func(key, value any) bool) {
 			return
 		}
 	}
+}
+
+// Pool is a deterministic, adversarial sync.Pool: one shared LIFO (the object
+// put last is the one handed out next, whichever thread asks - a behaviour the
+// real pool may show), with a scheduling point before Get and after Put, so
+// that "still used after it was put back" is explored instead of left to the
+// runtime's per-P caches.
+type Pool struct {
+	New   func() any
+	items []any
+}
+
+func (p *Pool) Get() any {
+	vrt.Yield()
+	if n := len(p.items); n > 0 {
+		x := p.items[n-1]
+		p.items = p.items[:n-1]
+		return x
+	}
+	if p.New != nil {
+		return p.New()
+	}
+	return nil
+}
+
+func (p *Pool) Put(x any) {
+	if x == nil {
+		return
+	}
+	p.items = append(p.items, x)
+	vrt.Yield()
 }
